@@ -902,15 +902,43 @@ def getattr_(I, o, name):
             return BoundBuiltin(lambda: o.pop())
     if isinstance(o, SymSet):
         return _symset_method(I, o, name)
-    if isinstance(o, frozenset) and name == "union":
+    if isinstance(o, (set, frozenset)) and name == "union":
         def fs_union(*others):
             if all(isinstance(x, (set, frozenset)) for x in others):
                 return o.union(*others)
+            if all(not is_z3(e) for e in o):
+                # a set of objects / scalars united with arbitrary iterables: elements added one by one under the elements' own equality
+                out = set(o)
+                okk = True
+                for x in others:
+                    for e in iterate(I, x):
+                        if is_z3(e):
+                            okk = False
+                            break
+                        out.add(canon_key(out, e))
+                if okk:
+                    return out if isinstance(o, set) else frozenset(out)
             acc = SymSet(_concrete_set(o))
             for x in others:
                 acc = SymSet(z3.SetUnion(acc.arr, _as_set_arr(I, x)))
             return acc
         return BoundBuiltin(fs_union)
+    if isinstance(o, (set, frozenset)) and name in ("difference", "intersection", "issubset", "issuperset", "isdisjoint"):
+        def fs_op(x, name=name):
+            if isinstance(x, (set, frozenset, list, tuple)) and all(isinstance(e, (int, str)) for e in list(o) + list(x)):
+                return getattr(frozenset(o), name)(frozenset(x))                      # concrete sets of scalars
+            a = SymSet(_concrete_set(o))
+            bb = _as_set_arr(I, x)
+            if name == "difference":
+                return SymSet(z3.SetDifference(a.arr, bb))
+            if name == "intersection":
+                return SymSet(z3.SetIntersect(a.arr, bb))
+            if name == "issubset":
+                return z3.IsSubset(a.arr, bb)
+            if name == "issuperset":
+                return z3.IsSubset(bb, a.arr)
+            return z3.SetIntersect(a.arr, bb) == EMPTY
+        return BoundBuiltin(fs_op)
     if isinstance(o, EnumVal) and name in ("name", "value"):
         return o.name
     if isinstance(o, IntTensorConst):
